@@ -878,17 +878,35 @@ func (w *world) caseForceRace(in concIn) gen.Case {
 		w.addReply(r)
 		done <- 0
 	}()
-	select {
-	case <-lg.seen:
-	case <-time.After(3 * time.Second):
-		fmt.Fprintln(os.Stderr, "h01: force-race: caller A never reached the forced state")
-		os.Exit(5)
-	}
-	deadlock := in.Scenario == "force-deadlock"
 	restore := func() {
 		logrus.StandardLogger().ReplaceHooks(oldHooks)
 		logrus.SetLevel(oldLevel)
 	}
+	select {
+	case <-lg.seen:
+	case <-done:
+		// A came back without reaching the unlocked SetState (the tree under test does not force
+		// ERROR here): the scenario cannot be realised; B runs after A and the episode is
+		// recorded as an ordinary concurrent case
+		restore()
+		go func() {
+			w.regThread(1)
+			r := w.issue(env, in.Callers[0], "caller-B")
+			results[1] = thrObs{Code: codeOf(r.Err), Reply: r.State, Has: r.HasReply}
+			w.addReply(r)
+			done <- 1
+		}()
+		select {
+		case <-done:
+		case <-time.After(hangTimeout):
+			return w.hungCase(env, in, n, "conc-hung")
+		}
+		return w.plainConc(env, in, st0, n, results, "conc-force-unrealised")
+	case <-time.After(3 * time.Second):
+		restore()
+		return w.hungCase(env, in, n, "conc-hung")
+	}
+	deadlock := in.Scenario == "force-deadlock"
 	if deadlock {
 		// B: legal transition, stopped inside its before_<event> hook: when it goes on, its own
 		// callback asks the FSM for the current state while A's SetState waits for the write lock
@@ -950,6 +968,32 @@ func (w *world) caseForceRace(in concIn) gen.Case {
 	return gen.Case{Term: fmt.Sprintf("CConc %s %s %s [] %s %s %s %s", stTerm(st0), oracleTerm(in.Faults), gen.List(ths),
 		gen.NList(in.microHint()), gen.List(lt), stTerm(final), gen.Bool(listed)), Kind: "conc-force-race", Input: in,
 		Obs: map[string]interface{}{"results": results, "log": plain, "final": final, "listed": listed}}
+}
+
+// plainConc is the common tail of a finished concurrent episode: the order of the locked sections
+// is read off the goroutine that wrote each opening event.
+func (w *world) plainConc(env *environment.Environment, in concIn, st0 string, from int, results []thrObs, kind string) gen.Case {
+	items := w.since(from)
+	w.setFaults(in.Faults, false)
+	final := env.Sm.Current()
+	listed := w.listed(env.Id())
+	w.setCur(nil)
+	w.dispose(env)
+	var macro []uint64
+	for _, it := range items {
+		if it.Kind == "E" && evKind(it.Name) == 1 && it.Th >= 0 {
+			macro = append(macro, uint64(it.Th))
+		}
+	}
+	lt, plain := logTerms(st0, items, final)
+	reqs := append([]reqIn{in.Holder}, in.Callers...)
+	var ths []string
+	for i, q := range reqs {
+		ths = append(ths, thrTerm(q, results[i]))
+	}
+	return gen.Case{Term: fmt.Sprintf("CConc %s %s %s %s [] %s %s %s", stTerm(st0), oracleTerm(withObservedBodies(in.Faults, items)), gen.List(ths),
+		gen.NList(macro), gen.List(lt), stTerm(final), gen.Bool(listed)), Kind: kind, Input: in,
+		Obs: map[string]interface{}{"results": results, "log": plain, "final": final, "listed": listed, "sections": macro}}
 }
 
 func (in concIn) microHint() []uint64 {
@@ -1087,6 +1131,7 @@ func main() {
 		return
 	}
 	o := gen.ParseFlags()
+	supervise() // returns in the child process only (watchdog.go)
 	if pf := os.Getenv("H01_PROF"); pf != "" {
 		f, _ := os.Create(pf)
 		pprof.StartCPUProfile(f)
@@ -1099,6 +1144,7 @@ func main() {
 	}
 	var cases []gen.Case
 	wrap := func(c gen.Case) gen.Case {
+		progress()
 		switch v := c.Input.(type) {
 		case seqIn:
 			c.Input = anyIn{Seq: &v}
@@ -1185,7 +1231,7 @@ func main() {
 		}
 		phases["conc_s"] = time.Since(tPhase).Seconds()
 	}
-	extra := map[string]any{"harness_wall_s": time.Since(t0).Seconds(), "phases": phases}
+	extra := map[string]any{"harness_wall_s": time.Since(t0).Seconds(), "phases": phases, "attempt": attempt()}
 	if err := gen.WriteCases(o, "C01", "From Verif Require Import EnvFsm.", "c01_case", "report01", cases, extra); err != nil {
 		fmt.Fprintln(os.Stderr, "h01:", err)
 		os.Exit(1)
